@@ -26,7 +26,8 @@ CONSTANTS
   MaxStamp,    \* stamps 1..MaxStamp
   Depth,       \* bound on the number of operations
   Dev,         \* set of deviation ids enabled (code as it is); {} = intended design
-  Ops          \* set of operation names enabled in this configuration
+  Ops,         \* set of operation names enabled in this configuration
+  HistK        \* number of most recent operations that distinguish states (0 = none; larger = more paths explored)
 
 VARIABLES v, g, n, hist
 
@@ -74,6 +75,7 @@ V0 == [ cells |-> <<>>,        \* physical element cells of the data region (nev
         dholesEx |-> FALSE, dholes |-> {},   \* the _holes region
         stamp |-> 0, dstamp |-> 0, hdrMod |-> FALSE,
         changes |-> {},        \* change directory: set of records, field f = file name (stamp)
+        dirEx |-> FALSE,       \* the change directory exists (created by the first commit, removed by reset)
         oob |-> FALSE,         \* some read touched cells at or beyond the region length
         res |-> "ok", dead |-> FALSE ]
 
@@ -86,6 +88,7 @@ G0 == [ vals |-> <<>>, stamp |-> 0,
         clean |-> TRUE,        \* contents equal the last committed state
         dev |-> {},            \* deviations taken by this behaviour
         must |-> "ok",         \* what the property demands of the last call: "ok" | "err" | "either"
+        last |-> <<>>,         \* the HistK most recent operations (forces TLC to keep histories apart)
         nxt |-> 1 ]            \* next fresh value
 
 Init == v = V0 /\ g = G0 /\ n = 0 /\ hist = <<>>
@@ -214,7 +217,7 @@ CmpWrite(s0, D) ==
   IF s.storedLen > real THEN [s EXCEPT !.res = "err"]
   ELSE IF np = 0 /\ s.storedLen = real
        THEN IF s.chg >= 0 /\ ~("D6" \in D)
-            THEN [PagesFlush(s) EXCEPT !.res = "ok"]         \* intended: a pending index change is still flushed
+            THEN [PagesFlush(s) EXCEPT !.res = "ok", !.dlen = real]   \* intended: a pending index change is still flushed, region cut
             ELSE [s EXCEPT !.res = "false"]
   ELSE IF sp > Len(s.pages) THEN [s EXCEPT !.res = "err"]
   ELSE
@@ -298,7 +301,7 @@ SaveChange(s, rec) ==
       RECURSIVE Prune(_)
       Prune(S) == IF Cardinality(S) <= K - 1 THEN S
                   ELSE Prune(S \ {CHOOSE r \in S : \A q \in S : r.f <= q.f})
-  IN [s EXCEPT !.changes = Prune(older) \cup {rec}]
+  IN [s EXCEPT !.changes = Prune(older) \cup {rec}, !.dirEx = TRUE]
 
 \* stamped_write_with_changes
 Commit(s, st, D) ==
@@ -350,7 +353,7 @@ CmpUndo(s, r, D) ==
                           buf == r.truncVals \o r.prevPushed
                       IN [s1 EXCEPT !.storedLen = agree, !.pushed = buf, !.prevPushed = buf]
             ELSE \* intended: elements the record does not mention and the disk no longer holds stay buffered
-                 LET agree == Min2(tstart, real)
+                 LET agree == Min2(Min2(tstart, real), s1.storedLen)
                      keep == [j \in 1..(tstart - agree) |-> Get(s1, agree + j - 1)]
                      buf == keep \o r.truncVals \o r.prevPushed
                  IN [s1 EXCEPT !.storedLen = agree, !.pushed = buf, !.prevPushed = buf]
@@ -379,6 +382,8 @@ RbLoop(s, files, target, D) ==
             IF s1.res = "err" THEN s1 ELSE RbLoop(s1, files \ {f}, target, D)
 
 RollbackBefore(s, target, D) ==
+  IF ~s.dirEx THEN [s EXCEPT !.res = "err"]     \* find_rollback_files: read_dir of a directory that was never created
+  ELSE
   LET files == {r.f : r \in {q \in s.changes : q.f <= s.stamp}}
       s1 == RbLoop(s, files, target, D)
   IN IF s1.res = "err" THEN s1 ELSE SaveRollbackState(s1)
@@ -391,7 +396,7 @@ Reset(s0) ==
            ELSE [s0 EXCEPT !.pages = <<>>, !.chg = 0]
       s1 == Truncate(s, 0)
   IN [SetStamp(s1, 0) EXCEPT !.pushed = <<>>, !.prevPushed = <<>>, !.storedLen = 0, !.prevStoredLen = 0,
-                              !.changes = {}, !.res = "ok"]
+                              !.changes = {}, !.dirEx = FALSE, !.res = "ok"]
 
 \* drop the in-memory object, import again from what is on disk (raw/mod.rs:78-121, cmp/mod.rs:78-96)
 Reimport(s) ==
@@ -424,9 +429,12 @@ Log(op, args, s, gg) ==
                         exp |-> GObs(gg), impl |-> Obs(s), dev |-> gg.dev,
                         pages |-> IF Raw THEN <<>> ELSE s.dpages, dlen |-> s.dlen, oob |-> s.oob])
 
+LastK(op, args) == LET l == Append(g.last, <<op, args>>) IN
+                   IF Len(l) > HistK THEN SubSeq(l, Len(l) - HistK + 1, Len(l)) ELSE l
+
 Step(op, args, s, gg) ==
   /\ v' = [s EXCEPT !.dead = s.res \in {"panic"}]
-  /\ g' = gg
+  /\ g' = [gg EXCEPT !.last = LastK(op, args)]
   /\ n' = n + 1
   /\ Log(op, args, s, gg)
 
@@ -513,7 +521,7 @@ ACommit ==
                                 !.committed = IF K = 0 THEN << [stamp |-> st, vals |-> g.vals] >>
                                               ELSE Append(g.committed, [stamp |-> st, vals |-> g.vals]),
                                 !.avail = Min2(K, g.avail + 1), !.consec = 0, !.clean = TRUE,
-                                !.faulted = FALSE, !.must = "ok"], d))
+                                !.must = "ok"], d))
 
 \* single rollback, issued only when the contents equal the last committed state
 ARollback ==
@@ -546,7 +554,7 @@ ARollbackBefore ==
            want == Max2(IF below = {} THEN 1 ELSE Max(below), Max2(m - g.avail, 1))
            c2 == SubSeq(g.committed, 1, land)
            moved == m - land
-           must == IF g.faulted \/ ~g.pure THEN "either"
+           must == IF g.faulted \/ ~g.pure \/ ~v.dirEx THEN "either"
                    ELSE IF land = want THEN "ok" ELSE "wrong"
        IN Step("rollback_before", <<target>>, s,
                Tag([g EXCEPT !.committed = c2, !.vals = c2[land].vals, !.stamp = c2[land].stamp,
